@@ -201,3 +201,21 @@ Example tridiag_det_pivot_product_nonvacuous :
   wfT ex3 /\ 1 <= tn ex3 /\
   forallb (fun k => match thomas_pivot ex3 k with Ok p => negb (Qc_eqb p (q 0 1)) | Panic _ => false end) (seq 0 (tn ex3)) = true.
 Proof. unfold wfT; cbn [tn tmain tsub tsup ex3 length]. repeat split; auto. Qed.
+
+(* ---- det is the determinant of the dense twin (mathcomp's \det), for every n >= 1, over every field ----
+   [ArithOfField abs ltb leb] is the Arith whose carrier, 0, 1, +, -, *, / and == are those of the mathcomp
+   fieldType F (abs/ltb/leb are unused by det and arbitrary); [dense_mx t] is the n x n mathcomp matrix
+   \matrix_(i, j) dense t i j.  Proof: tdet = continuant (above) and continuant = \det by Laplace expansion
+   along the last row and then along the last column of the remaining minor (Proofs/TridiagBridge.v). *)
+From mathcomp Require ssreflect.ssrnat algebra.ssralg algebra.matrix.
+From OV Require Import Proofs.TridiagBridge.
+Theorem tridiag_det_is_det : forall (F : ssralg.GRing.Field.type) (abs' : ssralg.GRing.Field.sort F -> ssralg.GRing.Field.sort F)
+  (ltb' leb' : ssralg.GRing.Field.sort F -> ssralg.GRing.Field.sort F -> bool)
+  (t : tridiag (ArithOfField abs' ltb' leb')), wfT t -> 1 <= tn t ->
+  tdet t = Ok (@matrix.determinant (ssralg.GRing.Field.ringType F) (tn t) (dense_mx t)).
+Proof. intros F abs' ltb' leb' t. exact (tdet_is_det_lemma (t := t)). Qed.
+Check tridiag_det_is_det : forall (F : ssralg.GRing.Field.type) (abs' : ssralg.GRing.Field.sort F -> ssralg.GRing.Field.sort F)
+  (ltb' leb' : ssralg.GRing.Field.sort F -> ssralg.GRing.Field.sort F -> bool)
+  (t : tridiag (ArithOfField abs' ltb' leb')), wfT t -> 1 <= tn t ->
+  tdet t = Ok (@matrix.determinant (ssralg.GRing.Field.ringType F) (tn t) (dense_mx t)).
+Print Assumptions tridiag_det_is_det.
